@@ -97,7 +97,8 @@ theorem else_inv (V : Validated root tree G) {ph : Nat → Phase} {ctx ctx' : Ct
     intro x bn' hx
     rw [hN] at hx
     rcases assign_get _ ctx.nodes x _ hx with ⟨b, hb, hv⟩ | ⟨hold, _⟩
-    · cases hv; exact Or.inl (hkeys x b hb)
+    · have hb' := hkeys x b hb
+      cases hv; exact Or.inl hb'
     · exact Or.inr hold
   have hold3 : ∀ x, ph' x ≠ .p3 → x ≠ ni := fun x hx hxn => hx (hxn ▸ hni')
   have keep : ∀ (y : Nat) (bn : BuildNode), ctx.nodes[y]? = some (some bn) → y ≠ ni → ph y ≠ .p3 →
@@ -110,7 +111,7 @@ theorem else_inv (V : Validated root tree G) {ph : Nat → Phase} {ctx ctx' : Ct
     have hne : ph it.nodeIndex ≠ .pc ni := by
       rw [hp]; intro he; cases he; exact hyn rfl
     exact ⟨g, by rw [hsame _ hn hne]; exact hp⟩
-  refine ⟨ph', ⟨?_, ?_, ?_, ?_, ?_, ?_, ?_, ?_, ?_, ?_⟩, ?_⟩
+  refine ⟨ph', ⟨?_, ?_, ?_, ?_, ?_, ?_, ?_, ?_, ?_, ?_, ?_⟩, ?_⟩
   · rw [hS]; exact h.stackNodup
   · intro x hx
     rw [hS] at hx
@@ -180,6 +181,15 @@ theorem else_inv (V : Validated root tree G) {ph : Nat → Phase} {ctx ctx' : Ct
     have hxi : x ∉ idxs := fun hm => by rw [hidx' x hm] at hp2; cases hp2
     rw [hother x hxn hxi] at hp2
     exact h.p2two x pn' hx hp2
+  · intro x bn' hx
+    rw [hN] at hx
+    rcases assign_get _ ctx.nodes x _ hx with ⟨b, hb, hv⟩ | ⟨hold, _⟩
+    · obtain ⟨it, hit, he⟩ := List.mem_map.1 hb
+      simp only [itemNode, Prod.mk.injEq] at he
+      obtain ⟨h1, h2⟩ := he
+      cases hv
+      rw [← h2, ← h1]; rfl
+    · exact h.pni x bn' hold
   · apply total_lt
     · intro x _
       rcases Classical.em (x = ni) with hxn | hxn
@@ -190,5 +200,144 @@ theorem else_inv (V : Validated root tree G) {ph : Nat → Phase} {ctx ctx' : Ct
     · refine ⟨ni, G_lt V hG, ?_⟩
       rw [hni']
       rcases hph with h2 | h2 <;> rw [h2] <;> decide
+
+
+/-! ### neutral updates and the pops -/
+
+/-- the invariant does not mention `data` -/
+theorem inv_congr {ph : Nat → Phase} {ctx ctx' : Ctx F} (h : Inv root tree G ph ctx) (hS : ctx'.stack = ctx.stack)
+    (hR : ctx'.rootStack = ctx.rootStack) (hN : ctx'.nodes = ctx.nodes) : Inv root tree G ph ctx' := by
+  obtain ⟨h1, h2, h3, h4, h5, h6, h7, h8, h9, h10, h11⟩ := h
+  exact ⟨hS ▸ h1, hS ▸ h2, hR ▸ h3, hR ▸ h4, hN ▸ h5, hN ▸ h6, hN ▸ h7, hN ▸ h8, h9, h10, hN ▸ h11⟩
+
+/-- rewriting a build node without touching its state and its conditional items -/
+theorem inv_putNode_same {ph : Nat → Phase} {ctx ctx' : Ctx F} (h : Inv root tree G ph ctx) {i : Nat} {bn bn' : BuildNode}
+    (hb : ctx.nodes[i]? = some (some bn)) (hs : bn'.state = bn.state) (hi : bn'.conditionalItems = bn.conditionalItems)
+    (hpi : bn'.parseNodeIndex = bn.parseNodeIndex) (hS : ctx'.stack = ctx.stack) (hR : ctx'.rootStack = ctx.rootStack) (hN : ctx'.nodes = putNode ctx.nodes i bn') :
+    Inv root tree G ph ctx' := by
+  have hget : ∀ (x : Nat) (b : BuildNode), ctx'.nodes[x]? = some (some b) →
+      ∃ b0, ctx.nodes[x]? = some (some b0) ∧ b.state = b0.state ∧ b.conditionalItems = b0.conditionalItems ∧
+        b.parseNodeIndex = b0.parseNodeIndex := by
+    intro x b hx
+    rw [hN, getElem?_putNode] at hx
+    rcases Classical.em (i = x) with hix | hix
+    · rw [if_pos hix] at hx
+      subst hix
+      split at hx
+      · cases hx; exact ⟨bn, hb, hs, hi, hpi⟩
+      · cases hx
+    · rw [if_neg hix] at hx
+      exact ⟨b, hx, rfl, rfl, rfl⟩
+  obtain ⟨h1, h2, h3, h4, h5, h6, h7, h8, h9, h10, h11⟩ := h
+  refine ⟨hS ▸ h1, hS ▸ h2, hR ▸ h3, hR ▸ h4, by rw [hN, size_putNode]; exact h5, ?_, ?_, ?_, h9, h10, ?_⟩
+  · intro x b hx hp
+    obtain ⟨b0, hb0, e1, _⟩ := hget x b hx
+    rw [e1]; exact h6 x b0 hb0 hp
+  · intro x b hx hp it hit
+    obtain ⟨b0, hb0, _, e2, _⟩ := hget x b hx
+    rw [e2] at hit; exact h7 x b0 hb0 hp it hit
+  · intro x b hx hp
+    obtain ⟨b0, hb0, _, e2, _⟩ := hget x b hx
+    rw [e2]; exact h8 x b0 hb0 hp
+  · intro x b hx
+    obtain ⟨b0, hb0, _, _, e3⟩ := hget x b hx
+    rw [e3]; exact h11 x b0 hb0
+
+theorem toList_of_back {a : Array Nat} {x : Nat} (hb : a.back? = some x) : a.toList = a.pop.toList ++ [x] := by
+  have hpos := back_some_size_pos hb
+  have hne : a.toList ≠ [] := by
+    intro h; have : a.size = 0 := by simpa using congrArg List.length h
+    omega
+  have hlast : a.toList.getLast? = some x := by rw [Array.getLast?_toList]; exact hb
+  rw [List.getLast?_eq_some_getLast hne] at hlast
+  have hl : a.toList.getLast hne = x := by simpa using hlast
+  have := List.dropLast_concat_getLast hne
+  rw [hl] at this
+  rw [Array.toList_pop]; exact this.symm
+
+/-- popping the inner work list -/
+theorem inv_pop_stack {ph : Nat → Phase} {ctx : Ctx F} (h : Inv root tree G ph ctx) {ni : Nat}
+    (hb : ctx.stack.back? = some ni) :
+    Inv root tree G ph ({ ctx with stack := ctx.stack.pop } : Ctx F) ∧ ni ∉ ctx.stack.pop.toList ∧ G ni ∧
+      (ph ni = .p1 ∨ ph ni = .p2) := by
+  have hl := toList_of_back hb
+  have hnd := h.stackNodup
+  rw [hl] at hnd
+  obtain ⟨n1, _, n3⟩ := List.nodup_append.1 hnd
+  have hmem : ni ∈ ctx.stack.toList := by rw [hl]; simp
+  obtain ⟨h1, h2, h3, h4, h5, h6, h7, h8, h9, h10, h11⟩ := h
+  refine ⟨⟨n1, fun x hx => h2 x (by rw [hl]; exact List.mem_append_left _ hx), h3, h4, h5, h6, h7, h8, h9, h10, h11⟩, ?_, h2 ni hmem⟩
+  intro hm
+  exact n3 ni hm ni (by simp) rfl
+
+/-- popping the outer work list: the root becomes the only entry of a fresh inner work list -/
+theorem inv_pop_root (V : Validated root tree G) {ph : Nat → Phase} {ctx ctx' : Ctx F} (h : Inv root tree G ph ctx) {r : Nat}
+    (hb : ctx.rootStack.back? = some r) (hS : ctx'.stack = #[r]) (hR : ctx'.rootStack = ctx.rootStack.pop)
+    (hN : ctx'.nodes = ctx.nodes) :
+    ∃ ph', Inv root tree G ph' ctx' ∧ total ph' tree.size < total ph tree.size := by
+  have hl := toList_of_back hb
+  have hnd := h.rootNodup
+  rw [hl] at hnd
+  obtain ⟨n1, _, n3⟩ := List.nodup_append.1 hnd
+  have hmem : r ∈ ctx.rootStack.toList := by rw [hl]; simp
+  obtain ⟨hrG, hrp⟩ := h.rootOk r hmem
+  let ph' : Nat → Phase := fun x => if x = r then .p1 else ph x
+  have hr' : ph' r = .p1 := by simp [ph']
+  have hother : ∀ x, x ≠ r → ph' x = ph x := by intro x hx; simp [ph', hx]
+  have hsame : ∀ x, ph x ≠ .pr → ph' x = ph x := fun x hx => hother x (fun hxr => hx (hxr ▸ hrp))
+  refine ⟨ph', ⟨?_, ?_, ?_, ?_, ?_, ?_, ?_, ?_, ?_, ?_, ?_⟩, ?_⟩
+  · rw [hS]; simp
+  · intro x hx
+    rw [hS] at hx
+    simp only [List.mem_singleton] at hx
+    subst hx; exact ⟨hrG, Or.inl hr'⟩
+  · rw [hR]; exact n1
+  · intro x hx
+    rw [hR] at hx
+    have hxr : x ≠ r := fun hxr => n3 x hx r (by simp) hxr
+    have := h.rootOk x (by rw [hl]; exact List.mem_append_left _ hx)
+    rw [hother x hxr]; exact this
+  · rw [hN]; exact h.size
+  · intro x bn hx hp2
+    rw [hN] at hx
+    have hxr : x ≠ r := fun hxr => by subst hxr; rw [hr'] at hp2; cases hp2
+    rw [hother x hxr] at hp2
+    exact h.init x bn hx hp2
+  · intro x bn hx hp3 it hit
+    rw [hN] at hx
+    have hx3 : ph x ≠ .p3 := by
+      rcases Classical.em (x = r) with hxr | hxr
+      · subst hxr; rw [hrp]; intro h; cases h
+      · rw [← hother x hxr]; exact hp3
+    obtain ⟨g, hp⟩ := h.items x bn hx hx3 it hit
+    exact ⟨g, by rw [hsame _ (by rw [hp]; intro h; cases h)]; exact hp⟩
+  · intro x bn hx hp3
+    rw [hN] at hx
+    have hx3 : ph x ≠ .p3 := by
+      rcases Classical.em (x = r) with hxr | hxr
+      · subst hxr; rw [hrp]; intro h; cases h
+      · rw [← hother x hxr]; exact hp3
+    exact h.itemsNodup x bn hx hx3
+  · intro c hcG hc0
+    have hc0' : ph c ≠ .p0 := by
+      rcases Classical.em (c = r) with hcr | hcr
+      · subst hcr; rw [hrp]; intro h; cases h
+      · rw [← hother c hcr]; exact hc0
+    rcases h.fresh c hcG hc0' with h1 | ⟨p, hp, hpc, hs1, hs2⟩
+    · exact Or.inl h1
+    · have hne : ph p ≠ .pr := by rcases hs1 with h1 | h1 <;> rw [h1] <;> intro h <;> cases h
+      exact Or.inr ⟨p, hp, hpc, by rw [SchedDone, hsame p hne]; exact ⟨hs1, hs2⟩⟩
+  · intro x pn hx hp2
+    have hxr : x ≠ r := fun hxr => by subst hxr; rw [hr'] at hp2; cases hp2
+    rw [hother x hxr] at hp2
+    exact h.p2two x pn hx hp2
+  · intro x bn hx
+    rw [hN] at hx; exact h.pni x bn hx
+  · apply total_lt
+    · intro x _
+      rcases Classical.em (x = r) with hxr | hxr
+      · subst hxr; rw [hr', hrp]; decide
+      · rw [hother x hxr]; exact Nat.le_refl _
+    · exact ⟨r, G_lt V hrG, by rw [hr', hrp]; decide⟩
 
 end Garnish.Lemmas.BuildTotal
